@@ -1,6 +1,6 @@
 #!/bin/bash
 # usage: try_mutation.sh <patch.diff> <property id>...   (applies to /repo, runs quick checks, reverts)
-patch="$1"; shift
+patch="$(readlink -f "$1")"; shift
 cd /repo || exit 2
 if ! git diff --quiet; then echo "/repo dirty"; exit 2; fi
 git apply "$patch" 2>/dev/null || git apply --3way "$patch" || { echo "patch does not apply"; git checkout -- .; exit 2; }
